@@ -563,14 +563,29 @@ fn check(ctx: &Ctx, c: &Case) -> CaseResult {
             Payload::from(value.clone()),
         );
         let doc: Doc = raw.verified().map_err(|e| Fail { sig: "harness:verified".into(), msg: e.to_string() })?;
+        // What is encoded is the verified document. Verification normalises payload keys to NFC (later key
+        // wins on collision), so a float that sat under a key that lost is no longer part of the value:
+        // whether a float is present is read from the verified document, not from the generated tree.
+        fn has_float(v: &serde_json::Value) -> bool {
+            match v {
+                serde_json::Value::Number(n) => n.is_f64(),
+                serde_json::Value::Array(a) => a.iter().any(has_float),
+                serde_json::Value::Object(o) => o.values().any(has_float),
+                _ => false,
+            }
+        }
+        let doc_float = doc.payload().values().any(|p| has_float(&serde_json::to_value(p).unwrap_or(serde_json::Value::Null)));
+        if doc_float != st.float {
+            ctx.count("classified:float-dropped-by-key-collision-at-verification");
+        }
         match doc.encode() {
             Err(e) => {
-                ensure!(st.float, "encode:error-without-float", "Doc::encode failed on a float-free payload: {e}");
+                ensure!(doc_float, "encode:error-without-float", "Doc::encode failed on a float-free payload: {e}");
                 ctx.count("result:float-rejected");
                 return Ok(());
             }
             Ok((_, out)) => {
-                ensure!(!st.float, "float:accepted", "document with a float payload was encoded to {}", show(&out));
+                ensure!(!doc_float, "float:accepted", "document with a float payload was encoded to {}", show(&out));
                 let tree = check_output(ctx, &out, None)?;
                 // the payload is present under the normalised id and equals the normalised value
                 let got = match &tree {
